@@ -7,50 +7,36 @@
 package errors
 
 //@ unit error_handler frames=on props=C12 filter=`errors\.ErrorHandler\)\.ServeHTTP$`
+//@ // errorPage and recovery through the contracts PROVED in unit error_page; header/body counters hw, lastStatus, bodyWrites
+//@ // are those of httpserver's unit text_responses. errBodies counts the error pages this handler asks for.
+//@ use caskethttp/httpserver/contracts_verif.go:text_responses
+//@ use caskethttp/errors/contracts_verif.go:error_page
 //@ // writing a log line changes nothing this handler reads (explicit frame-empty assumption; the logger's own contract is unit logger_lines)
 //@ extern (github.com/tmpim/casket/caskethttp/httpserver.Logger).Println
-//@ ghost wh int
-//@ ghost bw int
 //@ ghost errBodies int
-//@ ghost lastStatus int
 //@ ghost nextRet int
 //@ ghost panicked int
-//@ invariant wh >= 0 && bw >= 0 && errBodies >= 0
+//@ invariant hw >= 0 && bodyWrites >= 0 && errBodies >= 0
 
 //@ extern invoke:(github.com/tmpim/casket/caskethttp/httpserver.Handler).ServeHTTP
-//@   modifies ghost:wh, ghost:bw, ghost:nextRet
+//@   modifies ghost:hw, ghost:bodyWrites, ghost:nextRet
 //@   may_panic
-//@   ensures_on_panic wh >= old(wh) && bw >= old(bw)
-//@   ensures [H2] result0 >= 400 ==> (wh == old(wh) && bw == old(bw))
-//@   ensures wh >= old(wh) && bw >= old(bw) && nextRet == result0
-//@ extern invoke:(net/http.ResponseWriter).WriteHeader
-//@   modifies ghost:wh, ghost:lastStatus
-//@   ensures wh == old(wh) + 1 && lastStatus == statusCode
-//@ extern invoke:(net/http.ResponseWriter).Header
-//@   ensures result != nil
-//@ extern (net/http.Header).Set
+//@   ensures_on_panic hw >= old(hw) && bodyWrites >= old(bodyWrites)
+//@   ensures [H2] result0 >= 400 ==> (hw == old(hw) && bodyWrites == old(bodyWrites))
+//@   ensures hw >= old(hw) && bodyWrites >= old(bodyWrites) && nextRet == result0
 //@ extern fmt.Fprintln
-//@   modifies ghost:bw
-//@   ensures bw == old(bw) + 1
-//@ extern fmt.Sprintf
-
-//@ func (ErrorHandler).errorPage
-//@   modifies ghost:wh, ghost:bw, ghost:errBodies, ghost:lastStatus
-//@   ensures [page_once] errBodies == old(errBodies) + 1 && wh >= old(wh) + 1 && lastStatus == code
-//@ func (ErrorHandler).recovery
-//@   recovers
-//@   modifies ghost:wh, ghost:bw, ghost:errBodies, ghost:lastStatus
-//@   ensures [noop_unless_panicking] !panicking() ==> (wh == old(wh) && bw == old(bw) && errBodies == old(errBodies) && lastStatus == old(lastStatus))
-//@   ensures [panic_writes_500] panicking() ==> (wh >= old(wh) + 1 && lastStatus == 500)
+//@   modifies ghost:bodyWrites
+//@   ensures bodyWrites == old(bodyWrites) + 1
 
 //@ func (ErrorHandler).ServeHTTP
-//@   modifies ghost:bw, ghost:errBodies, ghost:lastStatus, ghost:nextRet, ghost:wh
+//@   modifies ghost:bodyWrites, ghost:errBodies, ghost:lastStatus, ghost:nextRet, ghost:hw
 //@   requires r != nil && r.URL != nil && h.Next != nil && w != nil && h.Log != nil && panicked == 0
+//@   at call (ErrorHandler).errorPage do errBodies = errBodies + 1
 //@   ensures [consumes_error_status] result0 < 400
 //@   ensures [error_page_once] (panicked == 0 && nextRet >= 400 && !(result1 != nil && h.Debug)) ==> (errBodies == old(errBodies) + 1 && lastStatus == nextRet && result0 == 0)
-//@   ensures [debug_writes_once] (panicked == 0 && result1 != nil && h.Debug) ==> (result0 == 0 && wh >= old(wh) + 1 && bw >= old(bw) + 1 && errBodies == old(errBodies))
+//@   ensures [debug_writes_once] (panicked == 0 && result1 != nil && h.Debug) ==> (result0 == 0 && hw >= old(hw) + 1 && bodyWrites >= old(bodyWrites) + 1 && errBodies == old(errBodies))
 //@   ensures [success_untouched] (panicked == 0 && nextRet < 400 && result1 == nil) ==> (result0 == nextRet && errBodies == old(errBodies))
-//@   ensures [panic_contained] panicked == 1 ==> (result0 == 0 && wh >= old(wh) + 1 && lastStatus == 500)
+//@   ensures [panic_contained] panicked == 1 ==> (result0 == 0 && hw >= old(hw) + 1 && lastStatus == 500)
 
 //@ unit setup_sweep props=C11 files=setup.go nilchecks=on nonnil_params=on dispenser_variants=on exclude=`errors\.(errorsParse|errorsParse\$1|setup)$` filter=`.`
 //@ // Safety sweep of this directive's setup code: index, slice, division, nil-map store, nil dereference, explicit panic,
@@ -106,3 +92,38 @@ package errors
 //@   requires c != nil
 //@   ensures [handler_with_pages_and_logger] result1 == nil ==> wfHandler(result0)
 //@   loop 1 invariant c != nil && cfg != nil && wfHandler(handler)
+
+//@ unit error_page frames=on props=C12 nilchecks=on verify_pure=on filter=`errors\.ErrorHandler\)\.(errorPage|recovery|findErrorPage)$`
+//@ // what error_handler assumes of errorPage and recovery, proved: an error page is ONE more header at least, the last one
+//@ // with the status asked for (also when the configured page cannot be opened or copied: the plain-text fallback), and a
+//@ // recovered panic ends in a 500. hw/lastStatus/bodyWrites as in httpserver's unit text_responses, whose contracts are used.
+//@ use caskethttp/httpserver/contracts_verif.go:text_responses
+//@ extern (github.com/tmpim/casket/caskethttp/httpserver.Logger).Printf
+//@ extern os.Open
+//@   ensures result1 == nil ==> result0 != nil
+//@ extern (*os.File).Close
+//@ extern mime.TypeByExtension
+//@ extern path/filepath.Ext
+//@ extern (*net/url.URL).String
+//@ extern io.Copy
+//@   modifies ghost:bodyWrites
+//@   ensures bodyWrites >= old(bodyWrites)
+//@ extern runtime.Callers
+//@   ensures 0 <= result && result <= len(pc)
+//@ extern runtime.FuncForPC
+//@ extern (*runtime.Func).FileLine
+//@ extern (*runtime.Func).Name
+//@ extern runtime.Stack
+//@   ensures 0 <= result && result <= len(buf)
+//@ func (ErrorHandler).findErrorPage
+//@   pure
+//@ func (ErrorHandler).errorPage
+//@   requires w != nil && r != nil && r.URL != nil && h.Log != nil
+//@   modifies ghost:hw, ghost:lastStatus, ghost:bodyWrites
+//@   ensures [a_header_with_the_error_status_is_the_last_one] hw >= old(hw) + 1 && lastStatus == code && bodyWrites >= old(bodyWrites)
+//@ func (ErrorHandler).recovery
+//@   recovers
+//@   requires w != nil && r != nil && r.URL != nil && h.Log != nil
+//@   modifies ghost:hw, ghost:lastStatus, ghost:bodyWrites
+//@   ensures [noop_unless_panicking] !panicking() ==> (hw == old(hw) && lastStatus == old(lastStatus) && bodyWrites == old(bodyWrites))
+//@   ensures [panic_writes_500] panicking() ==> (hw >= old(hw) + 1 && lastStatus == 500 && bodyWrites >= old(bodyWrites))
